@@ -25,6 +25,9 @@ const DOCS: &[&str] = &[
 const URIS: &[&str] = &[
     "file:///w/a.st", "file:///w/b.st", "file:///w/sub/c.iec", "untitled:Untitled-1", "http://example.com/x.st", "file:///w/d%20e.st", "file:///w/f01.st", "file:///w/f02.st", "file:///w/f03.st",
     "file:///w/f04.st", "file:///w/f05.st", "file:///w/f06.st", "file:///w/f07.st", "file:///w/f08.st", "file:///w/f09.st", "file:///w/%C3%BC.st", "file:///W/A.ST",
+    // URIs of other schemes an editor hands out: opaque ones (no authority, no rooted path), with an
+    // authority, with a query, a file URI with a host
+    "vscode-notebook-cell:main.st", "inmemory:model1", "urn:isbn:0451450523", "inmemory://model/1", "vscode-vfs://github/org/repo/x.st", "git:/w/x.st?ref=HEAD", "file://example.net/a/b.st",
 ];
 // (a life-cycle request repeated in mid-session - a second `initialize` - is a request like any other: one answer)
 const UNKNOWN_REQUESTS: &[&str] = &["textDocument/hover", "workspace/symbol", "textDocument/completion", "textDocument/definition", "custom/doesNotExist", "$/unknownRequest", "initialize", "client/registerCapability", "workspace/configuration", "window/showMessageRequest"];
